@@ -573,6 +573,20 @@ func CheckKVStep(op Op, env Env, pre, post KVObs, res Result) []Violation {
 					c.add("C08", "event.collection", "feed %s: event carries collection id %d, the collection's id is %d", fn, evs[0].CollID, post.CollIDA)
 				}
 			}
+			// the KeysOnly live feed sees the same mutation, without its body
+			if kev, ok := post.Events["fAk"]; ok {
+				want := len(post.Events["fA0"])
+				if len(kev) != want {
+					c.add("C08", "event.keysonly", "the KeysOnly feed received %d events, the ordinary feed %d", len(kev), want)
+				} else if want == 1 {
+					if kev[0].Key != key || kev[0].Cas != postDoc.Cas || kev[0].Opcode != post.Events["fA0"][0].Opcode {
+						c.add("C08", "event.keysonly", "the KeysOnly feed received %v for a mutation that left %s with CAS %d", kev[0], key, postDoc.Cas)
+					}
+					if kev[0].HasBody && len(kev[0].Body) > 0 {
+						c.add("C08", "event.keysonly", "the KeysOnly feed's event carries a body: %q", kev[0].Body)
+					}
+				}
+			}
 		}
 	}
 	// callbacks are shown the current version (C03, sequential consequence)
